@@ -176,6 +176,7 @@ package types
 //@ (define-fun STR_NOESC ((s (Array stream.Key (Slice Int))) (esc BytesV)) Bool
 //@   (forall ((r BytesV) (sd BytesV)) (! (=> (strHas s r sd) (and (not (= r esc)) (not (= sd esc)))) :pattern ((select s (kStream r sd))))))
 //@ (define-fun addrB ((s Str)) BytesV (bytesval (addrOf s)))
+//@ (define-fun isStreamKey ((k stream.Key)) Bool ((_ is kStream) k))
 //@ end
 
 //@ global ParamsKey abstracts str_key(ParamsKey) == kSParams
@@ -211,3 +212,40 @@ package types
 //@   requires validBech32(msg.Sender)
 //@   nopanic
 //@   ensures len(signers) == 1 && signers[0] == addrOf(msg.Sender)
+
+// a store without streams has empty deposit sums (used by the genesis import)
+//@ prelude
+//@ (assert (forall ((s (Array stream.Key (Slice Int))) (d Str)) (! (=> (forall ((r BytesV) (sd BytesV)) (! (not (strHas s r sd)) :pattern ((select s (kStream r sd))))) (= (depSum s d) 0)) :pattern ((depSum s d)))))
+//@ (define-fun strBytes ((x stream.Stream)) (Slice Int) (marshal.stream.Stream x))
+//@ end
+
+// ---------------------------------------------------------------- stateless validation (run by baseapp before any handler) and the authority signer
+// What CreateStream / TopUpDeposit / UpdateFlowRate accept is exactly what the arithmetic contracts above require (C12).
+//@ func MsgCreateStream.ValidateBasic(msg) (err)
+//@   props C12 C13 C11
+//@   requires isnil(msg.Deposit.Amount) || (Amt(msg.Deposit) < P255 && validDenom(msg.Deposit.Denom))
+//@   nopanic
+//@   ensures err == nil ==> validBech32(msg.Sender) && validBech32(msg.Receiver) && msg.Sender != msg.Receiver && !isnil(msg.Deposit.Amount) && Amt(msg.Deposit) > 0 && msg.FlowRate >= 1 && Amt(msg.Deposit) / msg.FlowRate >= 60
+//@ func MsgClaimStream.ValidateBasic(msg) (err)
+//@   props C13
+//@   nopanic
+//@   ensures err == nil ==> validBech32(msg.Sender) && validBech32(msg.Receiver)
+//@ func MsgTopUpDeposit.ValidateBasic(msg) (err)
+//@   props C12 C13
+//@   nopanic
+//@   ensures err == nil ==> validBech32(msg.Sender) && validBech32(msg.Receiver) && !isnil(msg.Deposit.Amount) && Amt(msg.Deposit) > 0
+//@ func MsgUpdateFlowRate.ValidateBasic(msg) (err)
+//@   props C12 C13 C11
+//@   nopanic
+//@   ensures err == nil ==> validBech32(msg.Sender) && validBech32(msg.Receiver) && msg.FlowRate >= 1
+//@ func MsgCancelStream.ValidateBasic(msg) (err)
+//@   props C13
+//@   nopanic
+//@   ensures err == nil ==> validBech32(msg.Sender) && validBech32(msg.Receiver)
+//@ func (*MsgUpdateParams).ValidateBasic(m) (err)
+//@   props C16 C13
+//@   ensures err == nil ==> validBech32(m.Authority) && !isnil(m.Params.ValidatorFee) && 0 <= dval(m.Params.ValidatorFee) && dval(m.Params.ValidatorFee) <= ONE
+//@ func (*MsgUpdateParams).GetSigners(m) (signers)
+//@   props C13
+//@   requires validBech32(m.Authority)
+//@   ensures len(signers) == 1 && signers[0] == addrOf(m.Authority)
